@@ -216,7 +216,8 @@ def r_perup(E):
             stem = m[len("update_"):-len("_across_usage_patterns")]
             want = f"{stem}_per_usage_pattern"
             c = next((c for c in _calls(ms[m]) if norm(c.func) == "self.sum_calculated_attribute_across_usage_patterns"), None)
-            tgt = next((s for s in ms[m].body if isinstance(s, ast.Assign)), None)
+            tgt = next((s for s in ast.walk(ms[m]) if isinstance(s, ast.Assign) and c is not None
+                        and any(x is c for x in ast.walk(s.value))), None)
             if c is None or not c.args or not isinstance(c.args[0], ast.Constant) or c.args[0].value != want \
                     or tgt is None or norm(tgt.targets[0]) != f"self.{stem}_across_usage_patterns":
                 res.findings.append(Finding(
